@@ -1,5 +1,14 @@
 TRUST = "CPython 3.12 codecs/re/json/io as installed; reference models in mc/spec.py (bound to docs/spec/section-format.rst at start-up); alphabets and bounds as stated in the evidence"
 CHECKS = {
+ 'C01': ("explicit-state exploration of the real writer+reader (frozen-object state graph, closed) x exhaustive per-call argument products, plus deviation-bounded whole-file enumeration; every execution compared with by-construction expectations",
+         "Every reachable canonical writer/reader state x every content call x every argument tuple in scope is executed on the real code and read back; whole files with <=2/3 non-default arguments anywhere are enumerated completely.",
+         TRUST, "DESIGN.md 5 C01"),
+ 'C02': ("same exploration as C01 (state graph x argument products + deviation-bounded files); bytes compared with an independent spec-derived serializer and walked by an independent validator",
+         "Every explored execution's output is compared byte for byte with mc/spec.serialize and validated structurally (grammar, option order, ids, lengths, newline, indent, canonical JSON).",
+         TRUST, "DESIGN.md 5 C02"),
+ 'C04': ("explicit-state BFS over container/content events on real DiffXWriter+DiffXReader objects (state = frozen vars + generator locals), to closure, plus an unmerged exhaustive history pass; each transition checked writer-alone, reader-alone and writer->reader against the declarative nearest-ancestor rule",
+         "All histories of scope pushes/pops are covered by graph closure (63 states per root) and, independently, by every legal history up to depth 7/9 executed without merging.",
+         TRUST, "DESIGN.md 5 C04"),
  'C16': ("bounded exhaustive enumeration of inputs (all byte strings over a 5-letter alphabet up to the stated length x 10 newline sequences) executed on the real split_lines and compared with a naive reference scanner",
          "Every (string, newline) pair inside the stated scope is executed; the four laws are checked on each and the result is compared with an independent scanner. A coverage statement, not a sample.",
          TRUST, "DESIGN.md 5 C16"),
